@@ -92,19 +92,33 @@ def main(argv):
                 rows.append((os.path.basename(d), meta, res))
                 print(os.path.basename(d), "patch does not apply")
                 continue
-            res = run_checks(ids)
+            # the checks the entry says catch it go first; the run of an entry stops at the first check that reports it
+            import re as _re
+            first = [c for c in _re.findall(r"C\d\d", meta.get("caught_by") or "") if c in ALL]
+            order = first + [c for c in ids if c not in first]
+            res = {}
+            for pid in order:
+                res.update(run_checks([pid]))
+                if res[pid]["exit"] == 1:
+                    break
             rows.append((os.path.basename(d), meta, res))
-            print(os.path.basename(d), {k: v["exit"] for k, v in res.items()})
+            print(os.path.basename(d), {k: v["exit"] for k, v in res.items()}, flush=True)
+            write_results(rows)
         cleanup()
+        write_results(rows)
+        return 0
+    print(__doc__)
+    return 2
+
+
+def write_results(rows):
+    if True:
         with open(os.path.join(VERIF, "seeded", "RESULTS.md"), "w") as f:
             f.write("# Seeded changes vs checks (quick tier, VERIF_SEED=0)\n\n| change | breaks | check -> exit (1 = caught) | first signature |\n|---|---|---|---|\n")
             for name, meta, res in rows:
                 f.write("| %s | %s | %s | %s |\n" % (
                     name, meta["property"], ", ".join("%s -> %d" % (k, v["exit"]) for k, v in res.items()),
                     next((v["signatures"][0] for v in res.values() if v["signatures"]), "-")[:160].replace("|", "/")))
-        return 0
-    print(__doc__)
-    return 2
 
 
 if __name__ == "__main__":
